@@ -74,7 +74,7 @@ impl Runner {
         }
         let (o, a) = measured(input);
         let human = format!("{} input=\"{}\" -> {} alloc={}", what, show(input), show_obs(&o), a);
-        let g = format!("CDecode {} {} {}%Z", g_bytes(input), g_obs(&o), a);
+        let g = format!("CDecode {} {} {}%Z", gb(input), g_obs(&o), a);
         let i = self.out.case(g, human.clone(), input.len() > 2);
         // the property's own predicate on the implementation
         let n = input.len() as u64;
@@ -161,7 +161,7 @@ fn run(args: Args, out: Out) {
         ("neg-len".into(), b"$-9223372036854775808\r\nabc".to_vec()),
         ("huge-array".into(), b"*18446744073709551615\r\n".to_vec()),
         ("huge-array".into(), b"*18446744073709551615\r\n:1\r\n:2\r\n".to_vec()),
-        ("huge-array".into(), b"*4294967296\r\n$1\r\na\r\n".to_vec()),
+        ("huge-array".into(), b"*100000000\r\n$1\r\na\r\n".to_vec()),
         ("huge-array".into(), b"*9223372036854775807\r\n*9223372036854775807\r\n*9223372036854775807\r\n".to_vec()),
         ("huge-bulk".into(), b"$9223372036854775807\r\nab".to_vec()),
         ("huge-bulk".into(), b"$536870912\r\nab".to_vec()),
